@@ -130,7 +130,7 @@ def catalogue():
 
 
 AWKWARD = ["plain", "say \"hi\" \\ there", "back`tick ${x} $ { \\`", "*/ end /* comment", "multi\nline\n  indented", "tab\tand\u0001ctl",
-           "trailing quote\"", "\"\"\" triple", "uni é 中 \U0001F600", "ends with backslash\\", "cr\rlf\r\nmix", " leading space", "''single''"]
+           "trailing quote\"", "\"\"\" triple", "uni é 中 \U0001F600", "ends with backslash\\", "cr\rlf\r\nmix", " leading space", "''single''", "$`date` $$ $", "^\\d+$\\s*", "$${amount} ${a}${b} \\${c}", "{$}{ $\\{ `${`"]
 
 
 def decorate(doc, strings, rng=None):
